@@ -27,7 +27,8 @@ Actors and the code they stand for
   `connFailReturn` (return on a failed setup; the deferred `Close` closes `done`).
 
 Channels: `sendQueue` is a rendezvous (joint step `wrPickReq`), `ackQueue` a queue of capacity `Gen.ackQueueSz`, each
-reply channel a one-place buffer `chan` with a `chanClosed` flag, `errs` a queue (two producers, each produces once).
+reply channel a buffer of capacity `replyCap` = 1 (`chan`, with a `chanClosed` flag; `rdDeliver` is enabled iff it has
+room), `errs` a queue of capacity `errsCap` = 2 (two producers, each produces once).
 `awaiting` is an association list (`cons` shadows = map overwrite, `erase` removes every entry of the id = map delete).
 `panicked` is set by the Go-level faults the code could commit: send on a closed reply channel, closing it twice.
 
@@ -108,6 +109,9 @@ structure Caller where
   /-- ghost: the id the write loop put into this caller's request -/
   wid : Option Nat := none
 deriving DecidableEq, Repr, Inhabited
+
+/-- number of messages sitting in a caller's reply channel -/
+def Caller.chanLen (x : Caller) : Nat := if x.chan.isSome then 1 else 0
 
 inductive Rd where
   | off
@@ -251,6 +255,19 @@ def actor : Act → Actor
   | .connInitial .. | .connInitialFail true | .connRejectReady | .connNegSend .. | .connNegDone _ | .connNegErrs | .connNegClosed
   | .connReady | .connServeErr | .connServeDone | .connReturn | .connFailReturn => .conn
 
+/-! ## channel capacities the step function relies on (tied to the `make(chan …)` expressions of the source by
+`C09.chan_caps` through the regenerated `Gen.chanMakes`) -/
+
+/-- `replyChan := make(chan Message, 1)` in handleOutgoing: the read loop's hand-over must never block, also when the
+caller has left between the lookup and the hand-over -/
+def replyCap : Nat := 1
+/-- `tokenChan := make(chan sendToken, 1)` in send: the write loop's hand-over of the token never blocks -/
+def tokenCap : Nat := 1
+/-- `errs := make(chan error, 2)` in Connect: each of the two loops reports once, whether or not Connect still listens -/
+def errsCap : Nat := 2
+/-- `sendQueue: make(chan request)`: a rendezvous (the joint step `wrPickReq`) -/
+def sendQueueCap : Nat := 0
+
 /-! ## helpers -/
 
 def setC (s : St) (c : Nat) (x : Caller) : St :=
@@ -324,7 +341,8 @@ def enabled (s : St) : Act → Bool
     | .hdr _ => true
     | _ => false
   | .rdDeliver => match s.rd with
-    | .deliver _ _ => true
+    -- a send on the reply channel proceeds iff the buffer has room
+    | .deliver _ c => decide ((s.callers c).chanLen < replyCap)
     | _ => false
   | .rdHandle => match s.rd with
     | .handle _ => true
